@@ -29,4 +29,20 @@ def split (d : DictFn) : Nat → Bytes → Fin → List MsgRes × Nat
     | (.msg m, n) => let (r, k) := split d fuel (bs.drop n) fin; (MsgRes.msg m :: r, n + k)
     | (other, n) => ([other], n)
 
+/-- the first `k` messages of the stream `bs`, cut by declared length (the message part of `split`) -/
+def splitMsgs (d : DictFn) : Nat → Bytes → Fin → List Msg
+  | 0, _, _ => []
+  | k+1, bs, fin =>
+    match splitStep d bs fin with
+    | (.msg m, n) => m :: splitMsgs d k (bs.drop n) fin
+    | _ => []
+
+/-- what is left of the stream after its first `k` messages -/
+def splitRest (d : DictFn) : Nat → Bytes → Fin → Bytes
+  | 0, bs, _ => bs
+  | k+1, bs, fin =>
+    match splitStep d bs fin with
+    | (.msg _, n) => splitRest d k (bs.drop n) fin
+    | _ => bs
+
 end DV.Spec
